@@ -84,7 +84,7 @@ Definition mulop_bin (nf : nat) (isfer : bool) (i : nat) (q : Z) (t : term) : op
   let f1 := if q =? 1
             then let f0 := cset i 0 f in
                  if orig =? 0 then f0 else CMul (CNum i) f0
-            else let f0 := cset i 1 f in
+            else let f0 := cset i (if orig =? 0 then 1 else 0) f in
                  if orig =? 0 then f0 else CMul (CAdd (CConst g1) (CNeg (CNum i))) f0 in
   let f2 := if isfer && Nat.odd (preceding_fermions nf p i orig new) then CNeg f1 else f1 in
   Some (p', f2).
